@@ -173,7 +173,7 @@ func init() {
 func init() {
 	register(&PropDef{
 		ID: "C07", Patterns: []string{"./interp"},
-		Covered: []string{"script calling a host function from a multi-value assignment: each result is stored in a new slot for a newly declared variable and in place for a redeclared or assigned one (slot identity, for every position)", "plain host call: result i is stored in slot findex+i, func results replace the slot, no other slot is touched", "frame ids of wrapper frames (shared with C09/C10)", "callBin argument vectors (variadic spread, interface wrapping by the first implemented interface of getMapType)", "genFunctionWrapper: host arguments land in the parameter slots, results are read from the result slots", "genValueRecv: a pointer is followed at every step of an embedded-field path", "Symbols: wrappers and variables are bound to the root frame", "getWrapper: composed wrappers are chosen by the complete method set", "method values bind their receiver when evaluated (value receivers copied)", "valueInterfaceValue removes every interpreter wrapper and returns a plain value as it is", "a variable of a binary package is not a compile-time constant: its node designates the variable at run time (selector case of cfg, getBinVar)"},
+		Covered: []string{"script calling a host function from a multi-value assignment: each result is stored in a new slot for a newly declared variable and in place for a redeclared or assigned one (slot identity, for every position)", "plain host call: result i is stored in slot findex+i, func results replace the slot, no other slot is touched", "frame ids of wrapper frames (shared with C09/C10)", "callBin argument vectors (variadic spread, interface wrapping by the first implemented interface of getMapType)", "genFunctionWrapper: host arguments land in the parameter slots, results are read from the result slots", "genValueRecv: a pointer is followed at every step of an embedded-field path", "Symbols: wrappers and variables are bound to the root frame", "getWrapper: composed wrappers are chosen by the complete method set", "method values bind their receiver when evaluated (value receivers copied)", "valueInterfaceValue removes every interpreter wrapper and returns a plain value as it is", "a variable of a binary package is not a compile-time constant: its node designates the variable at run time (selector case of cfg, getBinVar)", "send prepares its value for the element type of the channel, host channel types included"},
 		Uncov:   []string{"getFunc's result slice", "genInterfaceWrapper beyond the wrapper choice", "Execute's wrapping of function results", "reflect.Call itself"},
 		Trusted: []string{"T1 go toolchain, solvers", "T2 govc", "T3 reflect.Value model", "value functions are pure lookups; destinations of one assignment are distinct slots (assumed)"},
 	})
